@@ -73,7 +73,7 @@ class Gen:
             return enclosing
         if enclosing == "":
             return self.r.choice(NS_POOL)
-        if r < 0.62:
+        if r < 0.68:
             return ""      # explicit null namespace inside a namespaced type (can then only be used inline / from null-namespace contexts)
         return self.r.choice([n for n in NS_POOL if n != ""])
 
@@ -237,6 +237,13 @@ class Gen:
             nf = r.choice([0, 1, 1, 2, 2, 3, 4]) if depth > 0 else r.choice([0, 1, 2])
             names = r.sample(FIELD_NAMES, nf)
             for fn in names:
+                if self.defaults and depth > 0 and r.random() < 0.12:
+                    # the optional-field idiom: ["null", X] with "default": null
+                    x = self.typ(depth - 1, tns, under_union=True)
+                    if not (x["k"] == "prim" and x["name"] == "null") and x["k"] != "union":
+                        ft = {"k": "union", "br": [{"k": "prim", "name": "null"}, x]}
+                        d["fields"].append({"name": fn, "type": ft, "hasdef": True, "default": None, "aliases": self.mk_aliases()})
+                        continue
                 ft = self.typ(depth - 1, tns)
                 f = {"name": fn, "type": ft, "hasdef": False, "default": None, "aliases": self.mk_aliases()}
                 if self.defaults and r.random() < 0.35:
